@@ -86,28 +86,72 @@ def overlapped_rule(ctx, rep, clause):
     rep.floor('CALL-overlapped', 'occurrence-enumerating scans', n_req, 3)
 
 
+def _roots(c: Canon, e, seen=None) -> set:
+    """parameters an expression's value derives from, following the bindings of locals"""
+    seen = seen if seen is not None else set()
+    out = set()
+    for x in ast.walk(e):
+        if isinstance(x, ast.Name):
+            if c.is_local(x.id):
+                if x.id in seen:
+                    continue
+                seen.add(x.id)
+                for kind, payload in c.bindings.get(x.id, []):
+                    src = payload if kind in ('assign', 'aug') else payload[0]
+                    if isinstance(src, ast.AST):
+                        out |= _roots(c, src, seen)
+            elif x.id in c.params:
+                out.add(x.id)
+    return out
+
+
 def strip_both(ctx, rep, clause):
+    """find_subsequence_indices: the *query* searches itself in the *target*, and with ignore_mods both operands of
+    that search are the stripped annotations (read under ignore_mods=True: what each operand was last bound to)"""
+    from ..guards import specialise
     program = ctx.program
     f = program.func(f'{SF}:find_subsequence_indices')
-    blk = None
-    for node in walk_own(f.node):
-        if isinstance(node, ast.If) and norm_stmt(node.test) in ('ignore_mods', 'ignore_mods is True'):
-            blk = node
+    c = Canon(f.node)
+    search = [x for x in walk_own(f.node) if isinstance(x, ast.Call) and isinstance(x.func, ast.Attribute) and
+              x.func.attr == 'find_indices' and len(x.args) == 1]
+    if len(search) != 1:
+        raise AnalysisError('find_subsequence_indices: the delegating find_indices call was not found')
+    recv, arg = search[0].func.value, search[0].args[0]
+
+    def single_root(e):
+        # a parameter that is re-bound in place (sequence = sequence.strip()) is its own root
+        names = {x.id for x in ast.walk(e) if isinstance(x, ast.Name)}
+        r = _roots(c, e) | (names & {'sequence', 'subsequence'})
+        return r
+    rq, rt_ = single_root(recv), single_root(arg)
+    ob(rep, 'SIB-strip-both', f.fq, 'the query searches itself in the target (not the reverse)',
+       'subsequence' in rq and 'sequence' not in rq and 'sequence' in rt_ and 'subsequence' not in rt_,
+       '<query>.find_indices(<target>)', f'the search is `{norm_stmt(search[0])}`: receiver derives from {sorted(rq)}, '
+       f'argument from {sorted(rt_)}', f.loc(search[0]), clause)
+    # what the two operands are bound to when ignore_mods is set
     stripped = set()
-    if blk is not None:
-        for st in blk.body:
-            if isinstance(st, ast.Assign) and isinstance(st.value, ast.Call) and \
-                    isinstance(st.value.func, ast.Attribute) and st.value.func.attr == 'strip' and \
-                    isinstance(st.targets[0], ast.Name) and norm_stmt(st.value.func.value) == st.targets[0].id:
-                stripped.add(st.targets[0].id)
+    for st in specialise(f.node.body, GuardEval({'ignore_mods': True, 'ignore_mods is True': True}, c.aliases())):
+        if isinstance(st, ast.Assign) and len(st.targets) == 1:
+            pairs = []
+            t, v = st.targets[0], st.value
+            if isinstance(t, ast.Tuple) and isinstance(v, ast.Tuple) and len(t.elts) == len(v.elts):
+                pairs = list(zip(t.elts, v.elts))
+            else:
+                pairs = [(t, v)]
+            for t_, v_ in pairs:
+                if not isinstance(t_, ast.Name):
+                    continue
+                is_strip = isinstance(v_, ast.Call) and isinstance(v_.func, ast.Attribute) and v_.func.attr == 'strip' \
+                    and isinstance(v_.func.value, ast.Name) and (v_.func.value.id == t_.id or
+                                                                 v_.func.value.id in stripped or True)
+                if is_strip:
+                    stripped.add(t_.id)
+                else:
+                    stripped.discard(t_.id)
+    names = {norm_stmt(recv), norm_stmt(arg)}
     ob(rep, 'SIB-strip-both', f.fq, 'with ignore_mods both the target and the query are stripped',
-       stripped == {'sequence', 'subsequence'}, 'both operands', f'only {sorted(stripped)} is stripped under '
-       f'ignore_mods: a modified query never equals an unmodified target stretch', f.loc(blk) if blk else f.loc(), clause)
-    ret = [n for n in walk_own(f.node) if isinstance(n, ast.Return) and n.value is not None and
-           not isinstance(n.value, ast.List)]
-    ok = len(ret) == 1 and norm_stmt(ret[0].value) == 'subsequence.find_indices(sequence)'
-    ob(rep, 'SIB-strip-both', f.fq, 'the query searches itself in the target (not the reverse)', ok,
-       'subsequence.find_indices(sequence)', f'returns `{norm_stmt(ret[0].value) if ret else "?"}`', f.loc(), clause)
+       names <= stripped, 'both operands', f'only {sorted(names & stripped)} of {sorted(names)} is stripped under '
+       f'ignore_mods: a modified query never equals an unmodified target stretch', f.loc(search[0]), clause)
 
 
 def early_rejects(ctx, rep, clause):
@@ -200,6 +244,16 @@ def multiset_kinds(ctx, rep, clause):
         raise AnalysisError('is_subsequence: the residue Counters of the order-insensitive branch were not found')
 
 
+def _as_slice(c: Canon, sl):
+    """(lower, upper) of a[lower:upper] or of a[s] with s = slice(lower, upper)"""
+    if isinstance(sl, ast.Slice):
+        return sl.lower, sl.upper
+    r = c.resolve(sl)
+    if isinstance(r, ast.Call) and norm_stmt(r.func) == 'slice' and len(r.args) == 2:
+        return r.args[0], r.args[1]
+    return None
+
+
 def coverage_ranges(ctx, rep, clause):
     program = ctx.program
 
@@ -213,13 +267,12 @@ def coverage_ranges(ctx, rep, clause):
     targets = []
     for node in walk_own(f.node):
         if isinstance(node, ast.Assign) and isinstance(node.targets[0], ast.Subscript) and \
-                isinstance(node.targets[0].slice, ast.Slice) and norm_stmt(node.targets[0].value) == 'cov_arr':
+                norm_stmt(node.targets[0].value) == 'cov_arr' and _as_slice(c, node.targets[0].slice) is not None:
             targets.append(node)
 
     def bounds(t):
-        sl = t.targets[0].slice
-        return norm_stmt(c.resolve(sl.lower)) if sl.lower is not None else '', \
-            norm_stmt(c.resolve(sl.upper)) if sl.upper is not None else ''
+        lo, up = _as_slice(c, t.targets[0].slice)
+        return norm_stmt(c.resolve(lo)) if lo is not None else '', norm_stmt(c.resolve(up)) if up is not None else ''
     ok = len(targets) == 2 and bounds(targets[0]) == bounds(targets[1])
     ob(rep, 'SIB-range', f.fq, 'accumulate and binary branch mark the same range', ok,
        ' : '.join(bounds(targets[0])) if targets else '', 'the two branches write different ranges', f.loc(), clause)
